@@ -9,10 +9,15 @@ BUILD = os.path.join(VERIF, ".build")
 COQ = os.path.join(VERIF, "coq")
 THEORIES = os.path.join(COQ, "theories")
 HARNESS = os.path.join(VERIF, "harness")
-MXH = os.path.join(BUILD, "mxh")
-GOTABLES = os.path.join(BUILD, "gotables")
 NCPU = os.cpu_count() or 4
 
+
+def mxh_path(pid):
+    return os.path.join(BUILD, "mxh-" + pid)
+
+
+def gotables_path(pid):
+    return os.path.join(BUILD, "gotables-" + pid)
 FORBIDDEN = re.compile(
     r"\b(Admitted|admit|Axiom|Axioms|Parameter|Parameters|Conjecture|Conjectures|Admit Obligations|"
     r"bypass_check|Unset Guard Checking|Unset Positivity Checking|Unset Universe Checking|"
@@ -113,23 +118,38 @@ def write_if_changed(path, text):
     return False
 
 
-def build_go():
-    """(ok, log) — builds harness + translators from /repo's working tree with -tags verif"""
+def build_go(pid="all"):
+    """(ok, log) — builds harness + translators from /repo's working tree with -tags verif.
+    Every property has its own binary: only files tagged prop_<id> (or untagged shared
+    files) are compiled, so one property's plug-in or hook cannot break another's check."""
+    tag = "prop_" + pid.lower()
+    MXH, GOTABLES = mxh_path(pid), gotables_path(pid)
     env = goenv()
     try:
         shutil.copyfile(os.path.join(REPO, "go.sum"), os.path.join(HARNESS, "go.sum"))
     except OSError as e:
         return False, "cannot copy go.sum: %s" % e
-    rc, out = sh(["go", "build", "-tags", "verif", "-o", MXH, "./cmd/mxh"], cwd=HARNESS, env=env, timeout=900)
+    modargs = []
+    if os.path.abspath(REPO) != "/repo":
+        # VERIF_REPO=<scratch worktree>: same harness, alternative go.mod whose replace points there
+        md = os.path.join(BUILD, "mod-" + pid)
+        os.makedirs(md, exist_ok=True)
+        with open(os.path.join(HARNESS, "go.mod")) as f:
+            gm = f.read().replace("=> /repo", "=> " + os.path.abspath(REPO))
+        write_if_changed(os.path.join(md, "go.mod"), gm)
+        shutil.copyfile(os.path.join(REPO, "go.sum"), os.path.join(md, "go.sum"))
+        modargs = ["-modfile=" + os.path.join(md, "go.mod")]
+    rc, out = sh(["go", "build"] + modargs + ["-tags", "verif " + tag, "-o", MXH, "./cmd/mxh"], cwd=HARNESS, env=env, timeout=900)
     if rc != 0:
         return False, "go build mxh failed:\n" + out
-    rc, out2 = sh(["go", "build", "-o", GOTABLES, "./cmd/gotables"], cwd=HARNESS, env=env, timeout=600)
+    rc, out2 = sh(["go", "build"] + modargs + ["-tags", tag, "-o", GOTABLES, "./cmd/gotables"], cwd=HARNESS, env=env, timeout=600)
     if rc != 0:
         return False, "go build gotables failed:\n" + out2
     return True, out + out2
 
 
-def gen_tables():
+def gen_tables(pid="all"):
+    GOTABLES = gotables_path(pid)
     """run the translator: Go constant tables of /repo -> coq/theories/Gen/*.v (written only if changed)"""
     tmp = os.path.join(BUILD, "gen-tmp")
     shutil.rmtree(tmp, ignore_errors=True)
@@ -167,13 +187,25 @@ def coq_make(targets, timeout=3000):
     return sh(cmd, cwd=COQ, timeout=timeout + 30)
 
 
-def forbidden_scan():
+def dep_closure(rel_v):
+    """the .v files (paths relative to coq/) that rel_v transitively depends on, itself included"""
+    rc, out = sh(["coqdep", "-Q", "theories", "Murex", "-sort", rel_v], cwd=COQ, timeout=120)
+    files = [w for w in out.splitlines()[0].split() if w.endswith(".v")] if rc == 0 and out.strip() else []
+    return files or [rel_v]
+
+
+def forbidden_scan(only=None):
+    """only: list of paths relative to coq/ (default: the whole development)"""
     bad = []
-    for root, _, fs in os.walk(THEORIES):
-        for f in fs:
-            if not f.endswith(".v"):
+    if only is None:
+        only = []
+        for root, _, fs in os.walk(THEORIES):
+            only += [os.path.relpath(os.path.join(root, f), COQ) for f in fs if f.endswith(".v")]
+    for rel in sorted(set(only)):
+        if True:
+            p = os.path.join(COQ, rel)
+            if not os.path.exists(p):
                 continue
-            p = os.path.join(root, f)
             with open(p, errors="replace") as fh:
                 txt = fh.read()
             # strip comments (nested) before scanning
@@ -205,10 +237,10 @@ def strip_coq_comments(s):
 def setup():
     t0 = time.time()
     with Lock():
-        ok, out = build_go()
+        ok, out = build_go("all")
         if not ok:
             log(out); return 2
-        ok, out = gen_tables()
+        ok, out = gen_tables("all")
         log(out)
         if not ok:
             return 2
@@ -276,7 +308,7 @@ def proof_obligations(pid, cfg):
     if bad_ax:
         res["failing"] = "unexpected axioms: " + ", ".join(bad_ax)
         return res
-    fb = forbidden_scan()
+    fb = forbidden_scan(dep_closure(os.path.relpath(pf, COQ)))
     if fb:
         res["failing"] = "forbidden vernacular: " + "; ".join(fb[:5])
         return res
@@ -299,7 +331,7 @@ def run_impl(pid, cfg, cases, rundir):
     def work(j):
         inp = "\n".join(chunks[j]) + "\n"
         try:
-            p = subprocess.run([MXH, "run", pid], input=inp, stdout=subprocess.PIPE, stderr=subprocess.PIPE,
+            p = subprocess.run([mxh_path(pid), "run", pid], input=inp, stdout=subprocess.PIPE, stderr=subprocess.PIPE,
                                text=True, errors="replace", timeout=cfg["run_timeout"], cwd=rundir, env=goenv())
         except subprocess.TimeoutExpired:
             return None, "timeout"
@@ -319,7 +351,7 @@ def run_impl(pid, cfg, cases, rundir):
 
 
 def gen_cases(pid, seed, tier):
-    rc = subprocess.run([MXH, "gen", pid, "--seed", str(seed), "--tier", tier], stdout=subprocess.PIPE,
+    rc = subprocess.run([mxh_path(pid), "gen", pid, "--seed", str(seed), "--tier", tier], stdout=subprocess.PIPE,
                         stderr=subprocess.PIPE, text=True, timeout=600, env=goenv())
     if rc.returncode != 0:
         raise RuntimeError("mxh gen failed: " + rc.stderr[-2000:])
@@ -444,7 +476,7 @@ def shrink(pid, cfg, res, cls, rundir, budget_s=60):
     rounds = 0
     while time.time() - t0 < budget_s and rounds < 40:
         rounds += 1
-        p = subprocess.run([MXH, "shrink", pid], input=json.dumps(cur["case"]) + "\n", stdout=subprocess.PIPE,
+        p = subprocess.run([mxh_path(pid), "shrink", pid], input=json.dumps(cur["case"]) + "\n", stdout=subprocess.PIPE,
                            stderr=subprocess.PIPE, text=True, env=goenv())
         cands = [l for l in p.stdout.splitlines() if l.strip()]
         if not cands:
@@ -517,12 +549,12 @@ def check(pid, tier, seed, replay=None):
     try:
         # 1. rebuild from the working tree
         with Lock():
-            ok, out = build_go()
+            ok, out = build_go(pid)
             build_fail = None
             if not ok:
                 build_fail = ("harness build against /repo working tree", out)
             else:
-                ok, out = gen_tables()
+                ok, out = gen_tables(pid)
                 if not ok:
                     build_fail = ("translator gotables", out)
             model_fail = None
